@@ -32,6 +32,12 @@ def _arc_id(tag, K, a, b):
     return "%s:K%d:%s|%s" % (tag, K, X.vkey(a), X.vkey(b))
 
 
+def _jseed(ctx_seed, rid):
+    import zlib
+
+    return (int(ctx_seed) * 1000003 + zlib.crc32(rid.encode())) % (2 ** 31)
+
+
 def _kz(a, b):
     # deterministic per arc (not seeded): the failing set of an exhaustive scope must not depend on the seed
     return 1 + (sum(a) * 7 + sum(b) * 3 + a[0] + 2 * b[1]) % 3
@@ -120,15 +126,21 @@ def pair_cases_sampled(ctx, rng, arcs, K, n_second, quota):
 
 
 # ------------------------------------------------------------------------------------ verdicts
-def _groups(fails, nv):
-    """Split TLC's {(clause, variant)} into the exact variants, the generic-angle rotation and the tilted point."""
-    exact = sorted((c, v) for c, v in fails if v != nv and v != X.TILT_VARIANT)
-    gen = sorted((c, v) for c, v in fails if v == nv)
-    tilt = sorted((c, v) for c, v in fails if v == X.TILT_VARIANT)
-    if exact and gen and all(c == "Invariance" for c, _ in gen):
-        # the rotated replay itself is right: it differs from the base because the base is wrong
-        exact, gen = sorted(exact + gen), []
-    return exact, gen, tilt
+def _groups(fails, names):
+    """Split TLC's {(clause, variant)} into the exact variants and one group per perturbed replay (ulp jitter,
+    generic-angle rotation, tilted point); returns [(suffix, group name, failures)]."""
+    nv = len(names)
+    jv = names.index("jitter") + 1
+    exact = sorted((c, v) for c, v in fails if v not in (nv, jv, X.TILT_VARIANT))
+    out = []
+    for suffix, name, vv in (("#j", "jitter", jv), ("#g", "rotG", nv), ("#t", "tilt", X.TILT_VARIANT)):
+        g = sorted((c, v) for c, v in fails if v == vv)
+        if exact and g and all(c in ("Invariance", "JitterStable") for c, _ in g):
+            # the perturbed replay itself is right: it differs from the base because the base is wrong
+            exact = sorted(exact + g)
+            g = []
+        out.append((suffix, name, g))
+    return [("", "exact", exact)] + out
 
 
 def report_member(ctx, V, cases, keyed_K):
@@ -138,17 +150,17 @@ def report_member(ctx, V, cases, keyed_K):
         _, rid, _, j, cls, kinds, fails = v
         c = by[rid]
         p = X.vec_of_index(c["pidx"][j - 1], c["K"])
-        for grp, suffix in zip(_groups(fails, nv), ("", "#g", "#t")):
+        for suffix, gname, grp in _groups(fails, X.M_VARIANTS):
             if not grp:
                 continue
             fneg = [vv for cl, vv in grp if cl == "OnArcReported"]
             flag = bool(fneg) and all(X.plane_residual_member(c["a"], c["b"], p, vv - 1, c["kz"], c["theta"]) > EPS for vv in fneg)
             sig = {"fn": "point_within_gca", "keyed": c["K"] in keyed_K and suffix == "", "polar": kinds[0] == "polar",
-                   "class": cls, "plane_residual_gt_eps": flag}
+                   "class": cls, "plane_residual_gt_eps": flag, "replay_group": gname, "arc_kind": kinds[0]}
             key = "M/K%d/%s/%s/%s%s" % (c["K"], X.vkey(c["a"]), X.vkey(c["b"]), X.vkey(p), suffix)
             for clause in sorted({cl for cl, _ in grp}):
                 ctx.violation(key, clause, detail={"failed": grp, "variants": X.M_VARIANTS, "arc_kind": kinds[0], "exact_class": cls},
-                              sig=sig, replay={"fn": "point_within_gca", "a": c["a"], "b": c["b"], "p": p, "j": j - 1, "kz": c["kz"], "theta": c["theta"]})
+                              sig=sig, replay={"fn": "point_within_gca", "a": c["a"], "b": c["b"], "p": p, "j": j - 1, "kz": c["kz"], "theta": c["theta"], "jseed": c["jseed"]})
 
 
 def report_pairs(ctx, V, cases, keyed_K, K_of):
@@ -159,18 +171,19 @@ def report_pairs(ctx, V, cases, keyed_K, K_of):
         c = by[rid]
         cd = c["o"][j - 1]
         K = K_of[rid]
-        for grp, suffix in zip(_groups(fails, nv), ("", "#g")):
+        for suffix, gname, grp in _groups(fails, X.X_VARIANTS):
             if not grp:
                 continue
             fneg = [vv for cl, vv in grp if cl == "CrossingFound"]
             flag = bool(fneg) and all(X.plane_residual_pair(c["a"], c["b"], cd[0], cd[1], vv - 1, c["kz"], c["theta"]) > EPS for vv in fneg)
             sig = {"fn": "gca_gca_intersection", "keyed": K in keyed_K and suffix == "", "polar": "polar" in kinds,
-                   "class": cls, "plane_residual_gt_eps": flag}
+                   "class": cls, "plane_residual_gt_eps": flag, "replay_group": gname,
+                   "arc_kind": "meridian" if "meridian" in kinds else "+".join(sorted(set(kinds)))}
             key = "X/K%d/%s/%s/%s/%s%s" % (K, X.vkey(c["a"]), X.vkey(c["b"]), X.vkey(cd[0]), X.vkey(cd[1]), suffix)
             for clause in sorted({cl for cl, _ in grp}):
                 ctx.violation(key, clause, detail={"failed": grp, "variants": X.X_VARIANTS, "arc_kinds": list(kinds), "exact_class": cls},
                               sig=sig, replay={"fn": "gca_gca_intersection", "a": c["a"], "b": c["b"], "c": cd[0], "d": cd[1],
-                                               "x": c["x"][j - 1], "kz": c["kz"], "theta": c["theta"]})
+                                               "x": c["x"][j - 1], "j": j - 1, "kz": c["kz"], "theta": c["theta"], "jseed": c["jseed"]})
 
 
 def report_lat(ctx, V, cases, keyed_K, K_of):
@@ -180,15 +193,15 @@ def report_lat(ctx, V, cases, keyed_K, K_of):
         _, rid, _, _, which, kinds, fails = v
         c = by[rid]
         K = K_of[rid]
-        for grp, suffix in zip(_groups(fails, nv), ("", "#g")):
+        for suffix, gname, grp in _groups(fails, X.L_VARIANTS):
             if not grp:
                 continue
             sig = {"fn": "extreme_gca_latitude", "keyed": K in keyed_K and suffix == "", "polar": kinds[0] == "polar",
-                   "class": "max%d/min%d" % tuple(which), "plane_residual_gt_eps": False}
+                   "class": "max%d/min%d" % tuple(which), "plane_residual_gt_eps": False, "replay_group": gname, "arc_kind": kinds[0]}
             key = "L/K%d/%s/%s%s" % (K, X.vkey(c["a"]), X.vkey(c["b"]), suffix)
             for clause in sorted({cl for cl, _ in grp}):
                 ctx.violation(key, clause, detail={"failed": grp, "variants": X.L_VARIANTS, "arc_kind": kinds[0], "which": list(which)},
-                              sig=sig, replay={"fn": "extreme_gca_latitude", "a": c["a"], "b": c["b"], "cand": c["cand"], "kz": c["kz"], "theta": c["theta"]})
+                              sig=sig, replay={"fn": "extreme_gca_latitude", "a": c["a"], "b": c["b"], "cand": c["cand"], "kz": c["kz"], "theta": c["theta"], "jseed": c["jseed"]})
 
 
 def run(ctx):
@@ -247,6 +260,9 @@ def run(ctx):
     m_cases += m2 + m3
     l_cases += l2 + l3
     x_cases += x2 + x3
+
+    for c in m_cases + l_cases + x_cases:
+        c["jseed"] = _jseed(ctx.seed, c["id"])
 
     # ---- 3. replay into the implementation
     X.warm_up()
@@ -352,12 +368,12 @@ def replay(path):
             if r["fn"] == "point_within_gca":
                 K = max(1, max(abs(t) for t in r["a"] + r["b"] + r["p"]))
                 m_cases.append({"id": "M:%d" % n, "K": K, "a": r["a"], "b": r["b"], "pidx": [0] * r.get("j", 0) + [X.index_of_vec(r["p"], K)],
-                                "kz": r["kz"], "theta": r["theta"], "key": v["key"]})
+                                "kz": r["kz"], "theta": r["theta"], "jseed": r.get("jseed", 0), "key": v["key"]})
             elif r["fn"] == "gca_gca_intersection":
                 x_cases.append({"id": "X:%d" % n, "a": r["a"], "b": r["b"], "o": [[r["c"], r["d"]]], "x": [r["x"]],
-                                "kz": r["kz"], "theta": r["theta"], "key": v["key"]})
+                                "kz": r["kz"], "theta": r["theta"], "jseed": r.get("jseed", 0), "j0": r.get("j", 0), "key": v["key"]})
             else:
-                l_cases.append({"id": "L:%d" % n, "a": r["a"], "b": r["b"], "cand": r["cand"], "kz": r["kz"], "theta": r["theta"], "key": v["key"]})
+                l_cases.append({"id": "L:%d" % n, "a": r["a"], "b": r["b"], "cand": r["cand"], "kz": r["kz"], "theta": r["theta"], "jseed": r.get("jseed", 0), "key": v["key"]})
         X.warm_up()
         recs = [X.replay_member(c) for c in m_cases] + [X.replay_lat(c) for c in l_cases] + [X.replay_pairs(c) for c in x_cases]
         V, _, _ = X.judge(ctx, recs, "re-judge %d replayed cases" % len(recs))
